@@ -13,6 +13,7 @@ import (
 	"regexp"
 	"strconv"
 	"strings"
+	"time"
 
 	"github.com/DataDog/datadog-agent/pkg/obfuscate"
 	"github.com/GuanceCloud/grok"
@@ -189,11 +190,28 @@ func answer(q string) (res string) {
 		if p.bad {
 			return "err:render-syntax"
 		}
-		r, err := funcs.DateFormatHandle(v, unhexs(a[1]), unhexs(a[2]))
+		// the time engine on its own (Go's time package through the documented template names and
+		// precisions), not the repository's DateFormatHandle: that glue is code under test
+		n, err := conv.ToInt64E(v)
 		if err != nil {
-			return "err:" + err.Error()
+			return "err:not-an-integer"
 		}
-		return okHex(r)
+		var t time.Time
+		switch unhexs(a[1]) {
+		case "s":
+			t = time.Unix(n, 0)
+		case "ms":
+			t = time.Unix(0, n*int64(time.Millisecond))
+		default:
+			return "err:precision"
+		}
+		layout, ok := map[string]string{"ANSIC": time.ANSIC, "UnixDate": time.UnixDate, "RubyDate": time.RubyDate, "RFC822": time.RFC822,
+			"RFC822Z": time.RFC822Z, "RFC850": time.RFC850, "RFC1123": time.RFC1123, "RFC1123Z": time.RFC1123Z, "RFC3339": time.RFC3339,
+			"RFC3339Nano": time.RFC3339Nano, "Kitchen": time.Kitchen}[unhexs(a[2])]
+		if !ok {
+			return "err:format"
+		}
+		return okHex(t.Format(layout))
 	case "timestamp":
 		a := strings.SplitN(arg, ":", 2)
 		if len(a) != 2 {
